@@ -430,6 +430,73 @@ fn swizzles(rep: &mut Report) {
     let _ = all_tables!(vectors: f64) + all_tables!(vectors: u8) + all_tables!(points: f64) + all_tables!(points: Tag) + all_tables!(points: char);
 }
 
+// ------------------------------------------------------------------ element types that own something
+thread_local! {
+    /// per label: instances alive (created + cloned - dropped)
+    static LIVE: std::cell::RefCell<Vec<i64>> = std::cell::RefCell::new(vec![0; 16]);
+}
+/// an element type that is `Clone` but not `Copy`: it holds no pointer (nothing dangles if it is duplicated bitwise), it
+/// only counts - so a conversion that duplicates or loses an element shows in the count instead of in undefined behaviour
+#[derive(Debug, PartialEq)]
+struct Owned(usize);
+impl Owned {
+    fn new(label: usize) -> Owned {
+        LIVE.with(|l| l.borrow_mut()[label] += 1);
+        Owned(label)
+    }
+}
+impl Clone for Owned {
+    fn clone(&self) -> Owned {
+        Owned::new(self.0)
+    }
+}
+impl Drop for Owned {
+    fn drop(&mut self) {
+        LIVE.with(|l| l.borrow_mut()[self.0] -= 1);
+    }
+}
+fn live(n: usize) -> Vec<i64> {
+    LIVE.with(|l| l.borrow()[..n].to_vec())
+}
+/// the by-value conversions that exist for every `Clone` element type ("every element type"): the result holds the
+/// components in order, every element exists exactly once while the result lives and not at all afterwards
+fn owned_elems(rep: &mut Report) {
+    rep.cases("owned-elements", "L", "Vector1-4 and Point1-3 over a Clone (not Copy) element type that counts its instances: from / into arrays and tuples, mint", 1, Guard::states(1), |_, ctx| {
+        ctx.out(&0);
+        macro_rules! conv {
+            ($name:expr, $n:expr, $mk:expr, $labels:expr) => {{
+                LIVE.with(|l| l.borrow_mut().iter_mut().for_each(|x| *x = 0));
+                {
+                    let r = $mk;
+                    let got: Vec<usize> = $labels(&r);
+                    ctx.check(got == (0..$n).collect::<Vec<usize>>(), &key(&format!("owned-elements/{}", $name)), || format!("components {:?}", got));
+                    let lv = live($n);
+                    ctx.check(lv.iter().all(|x| *x == 1), &key(&format!("owned-elements/{}/each-element-once", $name)), || format!("instances alive per element while the result lives: {:?}", lv));
+                }
+                let lv = live($n);
+                ctx.check(lv.iter().all(|x| *x == 0), &key(&format!("owned-elements/{}/released", $name)), || format!("instances alive per element after the result is dropped: {:?}", lv));
+            }};
+        }
+        let o = Owned::new;
+        conv!("Vector1 from array", 1, { let v: Vector1<Owned> = [o(0)].into(); v }, |v: &Vector1<Owned>| vec![v.x.0]);
+        conv!("Vector2 from array", 2, { let v: Vector2<Owned> = [o(0), o(1)].into(); v }, |v: &Vector2<Owned>| vec![v.x.0, v.y.0]);
+        conv!("Vector3 from array", 3, { let v: Vector3<Owned> = [o(0), o(1), o(2)].into(); v }, |v: &Vector3<Owned>| vec![v.x.0, v.y.0, v.z.0]);
+        conv!("Vector4 from array", 4, { let v: Vector4<Owned> = [o(0), o(1), o(2), o(3)].into(); v }, |v: &Vector4<Owned>| vec![v.x.0, v.y.0, v.z.0, v.w.0]);
+        conv!("Point1 from array", 1, { let v: Point1<Owned> = [o(0)].into(); v }, |v: &Point1<Owned>| vec![v.x.0]);
+        conv!("Point2 from array", 2, { let v: Point2<Owned> = [o(0), o(1)].into(); v }, |v: &Point2<Owned>| vec![v.x.0, v.y.0]);
+        conv!("Point3 from array", 3, { let v: Point3<Owned> = [o(0), o(1), o(2)].into(); v }, |v: &Point3<Owned>| vec![v.x.0, v.y.0, v.z.0]);
+        conv!("Vector3 into array", 3, { let a: [Owned; 3] = Vector3 { x: o(0), y: o(1), z: o(2) }.into(); a }, |a: &[Owned; 3]| a.iter().map(|x| x.0).collect());
+        conv!("Vector4 into array", 4, { let a: [Owned; 4] = Vector4 { x: o(0), y: o(1), z: o(2), w: o(3) }.into(); a }, |a: &[Owned; 4]| a.iter().map(|x| x.0).collect());
+        conv!("Point3 into array", 3, { let a: [Owned; 3] = Point3 { x: o(0), y: o(1), z: o(2) }.into(); a }, |a: &[Owned; 3]| a.iter().map(|x| x.0).collect());
+        conv!("Vector3 from tuple", 3, { let v: Vector3<Owned> = (o(0), o(1), o(2)).into(); v }, |v: &Vector3<Owned>| vec![v.x.0, v.y.0, v.z.0]);
+        conv!("Vector4 into tuple", 4, { let t: (Owned, Owned, Owned, Owned) = Vector4 { x: o(0), y: o(1), z: o(2), w: o(3) }.into(); t }, |t: &(Owned, Owned, Owned, Owned)| vec![t.0 .0, t.1 .0, t.2 .0, t.3 .0]);
+        conv!("Point2 from tuple", 2, { let v: Point2<Owned> = (o(0), o(1)).into(); v }, |v: &Point2<Owned>| vec![v.x.0, v.y.0]);
+        conv!("Vector3 into mint", 3, { let m: mint::Vector3<Owned> = Vector3 { x: o(0), y: o(1), z: o(2) }.into(); m }, |m: &mint::Vector3<Owned>| vec![m.x.0, m.y.0, m.z.0]);
+        conv!("Vector2 from mint", 2, { let v: Vector2<Owned> = mint::Vector2 { x: o(0), y: o(1) }.into(); v }, |v: &Vector2<Owned>| vec![v.x.0, v.y.0]);
+        conv!("Point3 into mint", 3, { let m: mint::Point3<Owned> = Point3 { x: o(0), y: o(1), z: o(2) }.into(); m }, |m: &mint::Point3<Owned>| vec![m.x.0, m.y.0, m.z.0]);
+    });
+}
+
 fn main() {
     let mut rep = Report::from_args(P);
     rep.assume("element types: u8, i16, i32, u64, usize, f32, f64 for every view; char, bool, &'static str and a two-field struct for the views that exist without numeric bounds; components carry pairwise-distinct labels (bool: alternating)");
@@ -451,6 +518,7 @@ fn main() {
     float_mats::<f32>(&mut rep);
     float_mats::<f64>(&mut rep);
     index_panics(&mut rep);
+    owned_elems(&mut rep);
     shape::<u8>(&mut rep);
     shape::<i32>(&mut rep);
     shape::<u64>(&mut rep);
